@@ -7,6 +7,7 @@
 import Edn.Model.Builder
 import Edn.Model.Uniq
 import Edn.Proofs.Equal
+import Edn.Proofs.FaultsAux1
 
 namespace Edn.Proofs
 open Edn.Model Edn.Spec
@@ -17,18 +18,118 @@ theorem builder_outcome {α : Type} (initCap : Nat) (xs : List α) (sched : List
     | .addFailed i => i < xs.length ∧ false ∈ sched
     | .finished n none => n = xs.length ∧ (xs = [] ∨ false ∈ sched)
     | .finished n (some (st, ys)) => st = .heap ∧ ys = xs ∧ n = xs.length := by
-  sorry
+  obtain ⟨hi1, hi2, -⟩ := init_spec (α := α) initCap sched
+  unfold Builder.run
+  cases hini : Builder.init (α := α) initCap sched with
+  | mk b s1 =>
+    rw [hini] at hi1 hi2
+    simp only at hi1 hi2 ⊢
+    cases hall : Builder.addAll b xs 0 s1 with
+    | mk o s2 =>
+      cases o with
+      | inl i =>
+        obtain ⟨h1, h2⟩ := addAll_inl xs b 0 s1 i s2 hall
+        simp only
+        exact ⟨by omega, hi2 h2⟩
+      | inr b' =>
+        obtain ⟨h1, h2⟩ := addAll_inr xs b 0 s1 b' s2 hall
+        rw [hi1, List.nil_append] at h1
+        obtain ⟨f1, f2, f3, -⟩ := finish_spec b' s2
+        rw [h1] at f1 f2 f3
+        simp only
+        generalize (b'.finish s2).1 = n at f1 ⊢
+        generalize (b'.finish s2).2.1 = arr at f2 f3 ⊢
+        cases arr with
+        | none =>
+          refine ⟨f1, ?_⟩
+          cases f3 rfl with
+          | inl h => exact Or.inl h
+          | inr h => exact Or.inr (hi2 (h2 h))
+        | some p =>
+          obtain ⟨st, zs⟩ := p
+          obtain ⟨g1, g2⟩ := f2 st zs rfl
+          exact ⟨g1, g2, f1⟩
 
 /-- the array is never the builder's in-frame storage -/
 theorem builder_never_returns_stack {α : Type} (initCap : Nat) (xs ys : List α) (sched : List Bool) (n : Nat) (st : Store)
     (h : Builder.run initCap xs sched = .finished n (some (st, ys))) : st = .heap := by
-  sorry
+  have := builder_outcome initCap xs sched
+  rw [h] at this
+  exact this.1
 
 /-- without failing requests the builder always delivers all elements -/
 theorem builder_no_faults {α : Type} (initCap : Nat) (xs : List α) (sched : List Bool) (hs : false ∉ sched) :
     Builder.run initCap xs sched =
       .finished xs.length (if xs = [] ∧ initCap ≤ 8 then none else some (.heap, xs)) := by
-  sorry
+  obtain ⟨hi1, hi2, hi3⟩ := init_spec (α := α) initCap sched
+  unfold Builder.run
+  cases hini : Builder.init (α := α) initCap sched with
+  | mk b s1 =>
+    rw [hini] at hi1 hi2 hi3
+    simp only at hi1 hi2 hi3 ⊢
+    have hs1 : false ∉ s1 := fun hm => hs (hi2 hm)
+    cases hall : Builder.addAll b xs 0 s1 with
+    | mk o s2 =>
+      cases o with
+      | inl i => exact absurd (addAll_inl xs b 0 s1 i s2 hall).2 hs1
+      | inr b' =>
+        obtain ⟨h1, h2⟩ := addAll_inr xs b 0 s1 b' s2 hall
+        rw [hi1, List.nil_append] at h1
+        have hs2 : false ∉ s2 := fun hm => hs1 (h2 hm)
+        obtain ⟨f1, -, -, f4⟩ := finish_spec b' s2
+        simp only
+        rw [f1, f4 hs2, h1]
+        congr 1
+        cases xs with
+        | nil =>
+          simp only [Builder.addAll, Prod.mk.injEq, Sum.inr.injEq] at hall
+          rw [← hall.1, hi3 hs]
+          by_cases hc : initCap ≤ 8 <;> simp [hc]
+        | cons x t => simp
+
+/-- the hash-restricted strategies on the elements with filled-in caches -/
+theorem hashedStrategy_spec (cfg : Cfg) (xs : List Val) (h : Elems cfg xs) :
+    (hasDupHashed cfg (xs.map fun x => (hashOp cfg x).2) = false ↔ pairwiseDistinct cfg xs) ∧
+    Elems cfg (xs.map fun x => (hashOp cfg x).2) ∧
+    (xs.map fun x => (hashOp cfg x).2).length = xs.length := by
+  have hE := Elems_hashOp cfg xs h
+  have hh : ∀ y ∈ xs.map (fun x => (hashOp cfg x).2), y.hdr.hc = cacheOf (hashV cfg y) := by
+    intro y hy
+    obtain ⟨x, hx, rfl⟩ := List.mem_map.mp hy
+    rw [hashOp_hc cfg x (h x hx).2.2, (hashOp_cacheOK cfg x (h x hx).2.2).2.2.2.2.2]
+  refine ⟨?_, hE, List.length_map _⟩
+  rw [hasDupHashed_eq_linear cfg _ hE hh, hasDupLinear_iff cfg _ hE,
+    pairwiseDistinct_hashOp cfg xs h]
+
+theorem hasDupSortedF_spec (cfg : Cfg) (mallocOk : Bool) (xs : List Val) (h : Elems cfg xs) :
+    ((hasDupSortedF cfg mallocOk xs).1 = false ↔ pairwiseDistinct cfg xs) ∧
+    Elems cfg (hasDupSortedF cfg mallocOk xs).2 ∧
+    (hasDupSortedF cfg mallocOk xs).2.length = xs.length := by
+  unfold hasDupSortedF
+  cases mallocOk with
+  | true => exact hashedStrategy_spec cfg xs h
+  | false => exact ⟨hasDupLinear_iff cfg xs h, h, rfl⟩
+
+theorem hasDuplicatesF_spec (cfg : Cfg) (callocOk mallocOk : Bool) (xs : List Val) (h : Elems cfg xs) :
+    ((hasDuplicatesF cfg callocOk mallocOk xs).1 = false ↔ pairwiseDistinct cfg xs) ∧
+    Elems cfg (hasDuplicatesF cfg callocOk mallocOk xs).2 ∧
+    (hasDuplicatesF cfg callocOk mallocOk xs).2.length = xs.length := by
+  unfold hasDuplicatesF
+  by_cases h1 : xs.length ≤ 1
+  · rw [if_pos h1]
+    exact ⟨⟨fun _ => pairwiseDistinct_small cfg xs h1, fun _ => rfl⟩, h, rfl⟩
+  · rw [if_neg h1]
+    by_cases h2 : xs.length ≤ Generated.Tables.linearThreshold
+    · rw [if_pos h2]
+      exact ⟨hasDupLinear_iff cfg xs h, h, rfl⟩
+    · rw [if_neg h2]
+      by_cases h3 : xs.length ≤ Generated.Tables.sortedThreshold
+      · rw [if_pos h3]
+        exact hasDupSortedF_spec cfg mallocOk xs h
+      · rw [if_neg h3]
+        cases callocOk with
+        | true => exact hashedStrategy_spec cfg xs h
+        | false => exact hasDupSortedF_spec cfg mallocOk xs h
 
 /-- duplicate detection: the verdict does not depend on which scratch allocations fail, and the
     elements come back unchanged up to cache cells (same length, still well-formed) -/
@@ -37,10 +138,22 @@ theorem hasDuplicatesF_verdict (cfg : Cfg) (callocOk mallocOk : Bool) (xs : List
     ((hasDuplicatesF cfg callocOk mallocOk xs).1 = false ↔ pairwiseDistinct cfg xs) ∧
     Elems cfg (hasDuplicatesF cfg callocOk mallocOk xs).2 ∧
     (hasDuplicatesF cfg callocOk mallocOk xs).2.length = xs.length := by
-  sorry
+  obtain ⟨e1, e2, e3⟩ := hasDuplicatesF_spec cfg callocOk mallocOk xs h
+  have e0 := (hasDuplicates_iff cfg xs h).1
+  refine ⟨?_, e1, e2, e3⟩
+  have e : (hasDuplicatesF cfg callocOk mallocOk xs).1 = false ↔ (hasDuplicates cfg xs).1 = false :=
+    e1.trans e0.symm
+  cases hx : (hasDuplicatesF cfg callocOk mallocOk xs).1 <;> cases hy : (hasDuplicates cfg xs).1 <;> simp_all
 
 /-- with both allocations succeeding this is the function the reader model uses -/
 theorem hasDuplicatesF_nofault (cfg : Cfg) (xs : List Val) : hasDuplicatesF cfg true true xs = hasDuplicates cfg xs := by
-  sorry
+  unfold hasDuplicatesF hasDuplicates hasDupSortedF
+  by_cases h1 : xs.length ≤ 1
+  · rw [if_pos h1, if_pos h1]
+  · rw [if_neg h1, if_neg h1]
+    by_cases h2 : xs.length ≤ Generated.Tables.linearThreshold
+    · rw [if_pos h2, if_pos h2]
+    · rw [if_neg h2, if_neg h2]
+      simp
 
 end Edn.Proofs
